@@ -129,7 +129,9 @@ def _herm(spec, ctx, R):
     if decoupled and n == 1:
         decoupled = False
     e = _spectrum(rng, n - 1 if decoupled else n, r, "pos" if sign.endswith("pos") else ("neg_mixed" if decoupled else sign))
-    scale = [1.0, 1.0, 1e-3, 1e3, 1e-9, 1e-13, 1e9, 1.0][spec["idx"] % 8]
+    scale = [1.0, 1.0, 1e-3, 1e3, 1e-9, 1e-13, 1e9, 1.0, 2.0 ** -56, 2.0 ** -60, 1e-30, 1e30, 2.0 ** -200][spec["idx"] % 13]
+    if scale < 1e-15 or scale > 1e15:
+        ctx.hit("scale:beyond_eps")
     e = e * scale
     A, Uq = refq.hermitian_with_eigs(rng, e)
     if decoupled:
@@ -226,7 +228,7 @@ def _bounded(spec, ctx, R):
     elif c == "upper_tri":
         A = gen.structured(rng, "upper_tri", n, n)
     else:
-        A = refq.randq(rng, n, n) * float(rng.choice([1e-14, 1e-6, 1e6, 1e12]))
+        A = refq.randq(rng, n, n) * float(rng.choice([1e-14, 1e-6, 1e6, 1e12, 2.0 ** -60, 1e-30, 1e30]))
     s1 = float(embed.svals(A)[0])
     A0 = refq.fa(A).copy()
     for k in range(spec["nseeds"]):
